@@ -19,7 +19,7 @@ theorem hstep_noChange (plus : Bool) (s : H) (b : Batch) (h : b.ct = .noChange) 
 
 theorem hstep_change (plus : Bool) (s : H) (b : Batch) (h : b.ct ≠ .noChange) :
     hstep plus s b =
-      (advance s (apply plus b (s.version + 1)).err, apply plus b (s.version + 1)) := by
+      (advance s (apply plus s.lastErr b (s.version + 1)).err, apply plus s.lastErr b (s.version + 1)) := by
   cases hct : b.ct <;> simp_all [hstep]
 
 /-- case analysis on the Go state and the error flag -/
@@ -33,12 +33,12 @@ macro "state_cases" s:ident e:ident : tactic =>
              cases r <;> cases f <;> cases $e:ident <;>
                simp_all [advance, noChangeStep, setAsReady, Emit.none]))
 
-theorem apply_cfgVersion (plus : Bool) (b : Batch) (v : Nat) (h : b.ct ≠ .noChange) :
-    (apply plus b v).cfgVersion = some v := by
+theorem apply_cfgVersion (plus le : Bool) (b : Batch) (v : Nat) (h : b.ct ≠ .noChange) :
+    (apply plus le b v).cfgVersion = some v := by
   cases hct : b.ct <;> simp_all [apply, updateNginxConf] <;> (repeat' split) <;> simp
 
-theorem apply_status (plus : Bool) (b : Batch) (v : Nat) (h : b.ct ≠ .noChange) :
-    (apply plus b v).statusUpdated = true := by
+theorem apply_status (plus le : Bool) (b : Batch) (v : Nat) (h : b.ct ≠ .noChange) :
+    (apply plus le b v).statusUpdated = true := by
   cases hct : b.ct <;> simp_all [apply, updateNginxConf] <;> (repeat' split) <;> simp
 
 /-! ### the apply transaction -/
@@ -123,23 +123,48 @@ theorem unc_err (plus : Bool) (b : Batch) (v : Nat) :
         have := h hf hr
         cases plus <;> cases hb : b.apiOk <;> simp_all
 
-theorem apply_noChange (plus : Bool) (b : Batch) (v : Nat) (h : b.ct = .noChange) :
-    apply plus b v = Emit.none := by simp [apply, h]
+theorem apply_noChange (plus le : Bool) (b : Batch) (v : Nat) (h : b.ct = .noChange) :
+    apply plus le b v = Emit.none := by simp [apply, h]
 
-theorem apply_clusterState (plus : Bool) (b : Batch) (v : Nat) (h : b.ct = .clusterState) :
-    apply plus b v = updateNginxConf plus b v := by simp [apply, h]
+theorem apply_clusterState (plus le : Bool) (b : Batch) (v : Nat) (h : b.ct = .clusterState) :
+    apply plus le b v = updateNginxConf plus b v := by simp [apply, h]
 
-theorem apply_endpointsOnly_oss (b : Batch) (v : Nat) (h : b.ct = .endpointsOnly) :
-    apply false b v = updateNginxConf false b v := by simp [apply, h]
+/-- endpoints-only, not the API-only path (OSS, or Plus with a failed apply remembered) -/
+theorem apply_endpointsOnly_conf (plus le : Bool) (b : Batch) (v : Nat) (h : b.ct = .endpointsOnly)
+    (hp : (plus && !le) = false) : apply plus le b v = updateNginxConf plus b v := by
+  simp only [apply, h, hp]; simp
 
-theorem apply_endpointsOnly_plus (b : Batch) (v : Nat) (h : b.ct = .endpointsOnly) :
-    apply true b v = ⟨some v, false, none, none, true, !b.apiOk, true, none, none⟩ := by
-  simp [apply, h]
+/-- endpoints-only on Plus with the remembered result ok: API alone -/
+theorem apply_endpointsOnly_api (plus le : Bool) (b : Batch) (v : Nat) (h : b.ct = .endpointsOnly)
+    (hp : (plus && !le) = true) :
+    apply plus le b v = ⟨some v, false, none, none, true, !b.apiOk, true, none, none⟩ := by
+  simp only [apply, h, hp]; simp
 
-theorem apply_reloadVersion (plus : Bool) (b : Batch) (v w : Nat)
-    (h : (apply plus b v).reloadVersion = some w) :
-    w = v ∧ (apply plus b v).reload = some (reload b.oracle v) ∧ b.writeOk = true ∧
-      (apply plus b v).generated = true := by
+theorem apiOnly_iff (plus le : Bool) (b : Batch) :
+    apiOnly plus le b = true ↔ plus = true ∧ le = false ∧ b.ct = .endpointsOnly := by
+  cases plus <;> cases le <;> cases hc : b.ct <;> simp [apiOnly, hc]
+
+/-- every arm other than the API-only one is `updateNginxConf` -/
+theorem apply_conf (plus le : Bool) (b : Batch) (v : Nat) (hct : b.ct ≠ .noChange)
+    (ha : apiOnly plus le b = false) : apply plus le b v = updateNginxConf plus b v := by
+  cases hc : b.ct with
+  | noChange => exact absurd hc hct
+  | clusterState => exact apply_clusterState plus le b v hc
+  | endpointsOnly =>
+    apply apply_endpointsOnly_conf plus le b v hc
+    cases hp : (plus && !le) with
+    | false => rfl
+    | true => simp [apiOnly, hc, hp] at ha
+
+theorem apply_api (plus le : Bool) (b : Batch) (v : Nat) (ha : apiOnly plus le b = true) :
+    apply plus le b v = ⟨some v, false, none, none, true, !b.apiOk, true, none, none⟩ := by
+  obtain ⟨rfl, rfl, hc⟩ := (apiOnly_iff plus le b).1 ha
+  exact apply_endpointsOnly_api true false b v hc rfl
+
+theorem apply_reloadVersion (plus le : Bool) (b : Batch) (v w : Nat)
+    (h : (apply plus le b v).reloadVersion = some w) :
+    w = v ∧ (apply plus le b v).reload = some (reload b.oracle v) ∧ b.writeOk = true ∧
+      (apply plus le b v).generated = true := by
   have key : ∀ w, (updateNginxConf plus b v).reloadVersion = some w →
       w = v ∧ (updateNginxConf plus b v).reload = some (reload b.oracle v) ∧ b.writeOk = true ∧
         (updateNginxConf plus b v).generated = true := by
@@ -149,54 +174,57 @@ theorem apply_reloadVersion (plus : Bool) (b : Batch) (v w : Nat)
     | failed c k => simp [hf] at hw
     | ok => simp [hf] at hw; simp [hw, FilesOutcome.isOk]
   revert h
-  cases hct : b.ct with
-  | noChange => rw [apply_noChange plus b v hct]; simp [Emit.none]
-  | endpointsOnly =>
-    cases plus
-    · rw [apply_endpointsOnly_oss b v hct]; exact key w
-    · rw [apply_endpointsOnly_plus b v hct]; simp
-  | clusterState => rw [apply_clusterState plus b v hct]; exact key w
+  by_cases hct : b.ct = .noChange
+  · rw [apply_noChange plus le b v hct]; simp [Emit.none]
+  · cases ha : apiOnly plus le b with
+    | true => rw [apply_api plus le b v ha]; simp
+    | false => rw [apply_conf plus le b v hct ha]; exact key w
 
 /-- which environment faults make an apply fail, exactly -/
-theorem apply_err_iff (plus : Bool) (b : Batch) (v : Nat) (h : b.ct ≠ .noChange) :
-    (apply plus b v).err = true ↔
-      if plus = true ∧ b.ct = .endpointsOnly then b.apiOk = false
+theorem apply_err_iff (plus le : Bool) (b : Batch) (v : Nat) (h : b.ct ≠ .noChange) :
+    (apply plus le b v).err = true ↔
+      if apiOnly plus le b = true then b.apiOk = false
       else (b.writeOk = false ∨ (reload b.oracle v).res.isSome = true ∨
             (plus = true ∧ b.apiOk = false)) := by
-  cases hct : b.ct with
-  | noChange => exact absurd hct h
-  | endpointsOnly =>
-    cases plus
-    · rw [apply_endpointsOnly_oss b v hct]
-      simpa using unc_err false b v
-    · rw [apply_endpointsOnly_plus b v hct]; simp
-  | clusterState =>
-    rw [apply_clusterState plus b v hct]
+  cases ha : apiOnly plus le b with
+  | true => rw [apply_api plus le b v ha]; simp
+  | false =>
+    rw [apply_conf plus le b v h ha]
     simpa using unc_err plus b v
 
 /-- a successful apply that involved a reload had a successful reload of exactly that version -/
-theorem apply_ok_reload (plus : Bool) (b : Batch) (v : Nat)
-    (h1 : (apply plus b v).err = false) (h2 : plus = false ∨ b.ct = .clusterState)
+theorem apply_ok_reload (plus le : Bool) (b : Batch) (v : Nat)
+    (h1 : (apply plus le b v).err = false) (h2 : apiOnly plus le b = false)
     (h3 : b.ct ≠ .noChange) :
-    (apply plus b v).reloadVersion = some v ∧ (reload b.oracle v).res = none := by
-  have key : (updateNginxConf plus b v).err = false →
-      (updateNginxConf plus b v).reloadVersion = some v ∧ (reload b.oracle v).res = none := by
-    intro he
-    simp only [updateNginxConf, applyTx_reload] at he ⊢
-    have hn : (applyTx plus b.files b.oracle b.apiOk v).res = none := by
-      cases hres : (applyTx plus b.files b.oracle b.apiOk v).res with
-      | none => rfl
-      | some e => rw [hres] at he; simp at he
-    obtain ⟨hf, hr, _⟩ := (applyTx_ok_iff _ _ _ _ _).1 hn
-    simp [hf, hr]
-  revert h1
-  cases hct : b.ct with
-  | noChange => exact absurd hct h3
-  | endpointsOnly =>
-    rcases h2 with rfl | h2
-    · rw [apply_endpointsOnly_oss b v hct]; exact key
-    · rw [hct] at h2; cases h2
-  | clusterState => rw [apply_clusterState plus b v hct]; exact key
+    (apply plus le b v).reloadVersion = some v ∧ (reload b.oracle v).res = none := by
+  rw [apply_conf plus le b v h3 h2] at h1 ⊢
+  simp only [updateNginxConf, applyTx_reload] at h1 ⊢
+  have hn : (applyTx plus b.files b.oracle b.apiOk v).res = none := by
+    cases hres : (applyTx plus b.files b.oracle b.apiOk v).res with
+    | none => rfl
+    | some e => rw [hres] at h1; simp at h1
+  obtain ⟨hf, hr, _⟩ := (applyTx_ok_iff _ _ _ _ _).1 hn
+  simp [hf, hr]
+
+/-- the batch went through `updateNginxConf` exactly when it built a configuration and was not API-only -/
+theorem apply_generated_iff (plus le : Bool) (b : Batch) (v : Nat) :
+    (apply plus le b v).generated = true ↔ b.ct ≠ .noChange ∧ apiOnly plus le b = false := by
+  by_cases hct : b.ct = .noChange
+  · rw [apply_noChange plus le b v hct]; simp [Emit.none, hct]
+  · cases ha : apiOnly plus le b with
+    | true => rw [apply_api plus le b v ha]; simp
+    | false => rw [apply_conf plus le b v hct ha]; simp [updateNginxConf, hct]
+
+theorem needsReload_iff (plus le : Bool) (b : Batch) :
+    needsReload plus le b = true ↔ b.ct ≠ .noChange ∧ apiOnly plus le b = false := by
+  cases plus <;> cases le <;> cases hc : b.ct <;> simp [needsReload, apiOnly, hc]
+
+/-- a batch that needs a reload IS `updateNginxConf` -/
+theorem hstep_conf (plus : Bool) (s : H) (b : Batch) (hre : needsReload plus s.lastErr b = true) :
+    (hstep plus s b).2 = updateNginxConf plus b (s.version + 1) := by
+  obtain ⟨hct, ha⟩ := (needsReload_iff plus s.lastErr b).1 hre
+  rw [hstep_change plus s b hct]
+  exact apply_conf plus s.lastErr b _ hct ha
 
 theorem hstep_version (plus : Bool) (s : H) (b : Batch) :
     (hstep plus s b).1.version = if b.ct = .noChange then s.version else s.version + 1 := by
@@ -204,14 +232,14 @@ theorem hstep_version (plus : Bool) (s : H) (b : Batch) :
   · rw [hstep_noChange plus s b hct]; simp only [hct, if_true]
     state_cases0 s
   · rw [hstep_change plus s b hct]; simp only [hct, if_false]
-    generalize (apply plus b (s.version + 1)).err = e
+    generalize (apply plus s.lastErr b (s.version + 1)).err = e
     state_cases s e
 
 theorem hstep_cfgVersion (plus : Bool) (s : H) (b : Batch) :
     (hstep plus s b).2.cfgVersion = if b.ct = .noChange then none else some (s.version + 1) := by
   by_cases hct : b.ct = .noChange
   · rw [hstep_noChange plus s b hct]; simp [hct, Emit.none]
-  · rw [hstep_change plus s b hct]; simp [hct, apply_cfgVersion plus b _ hct]
+  · rw [hstep_change plus s b hct]; simp [hct, apply_cfgVersion plus _ b _ hct]
 
 theorem hstep_reloadVersion (plus : Bool) (s : H) (b : Batch) (v : Nat)
     (h : (hstep plus s b).2.reloadVersion = some v) :
@@ -220,15 +248,15 @@ theorem hstep_reloadVersion (plus : Bool) (s : H) (b : Batch) (v : Nat)
   by_cases hct : b.ct = .noChange
   · rw [hstep_noChange plus s b hct] at h; simp [Emit.none] at h
   · rw [hstep_change plus s b hct] at h ⊢
-    obtain ⟨rfl, h2, h3, _⟩ := apply_reloadVersion plus b _ _ h
-    exact ⟨apply_cfgVersion plus b _ hct, rfl, h2, h3⟩
+    obtain ⟨rfl, h2, h3, _⟩ := apply_reloadVersion plus _ b _ _ h
+    exact ⟨apply_cfgVersion plus _ b _ hct, rfl, h2, h3⟩
 
 theorem hstep_ready_latch (plus : Bool) (s : H) (b : Batch) (h : s.ready = true) :
     (hstep plus s b).1.ready = true := by
   by_cases hct : b.ct = .noChange
   · rw [hstep_noChange plus s b hct]; state_cases0 s
   · rw [hstep_change plus s b hct]
-    generalize (apply plus b (s.version + 1)).err = e
+    generalize (apply plus s.lastErr b (s.version + 1)).err = e
     state_cases s e
 
 /-- how an unready pod can become ready in one batch -/
@@ -243,7 +271,7 @@ theorem hstep_becomes_ready (plus : Bool) (s : H) (b : Batch) (h0 : s.ready = fa
   · rw [hstep_change plus s b hct] at h1 ⊢
     refine Or.inl ⟨hct, ?_⟩
     revert h1
-    generalize (apply plus b (s.version + 1)).err = e
+    generalize (apply plus s.lastErr b (s.version + 1)).err = e
     intro h1
     state_cases s e
 
@@ -272,7 +300,7 @@ theorem hstep_fbe_unready (plus : Bool) (s : H) (b : Batch)
     state_cases0 s
   · rw [hstep_change plus s b hct] at h1 ⊢
     revert h1
-    generalize (apply plus b (s.version + 1)).err = e
+    generalize (apply plus s.lastErr b (s.version + 1)).err = e
     intro h1
     state_cases s e
 
@@ -282,14 +310,14 @@ theorem hstep_lastErr (plus : Bool) (s : H) (b : Batch) :
   by_cases hct : b.ct = .noChange
   · rw [hstep_noChange plus s b hct]; simp only [hct, if_true]; state_cases0 s
   · rw [hstep_change plus s b hct]; simp only [hct, if_false]
-    generalize (apply plus b (s.version + 1)).err = e
+    generalize (apply plus s.lastErr b (s.version + 1)).err = e
     state_cases s e
 
 theorem hstep_status_iff (plus : Bool) (s : H) (b : Batch) :
     (hstep plus s b).2.statusUpdated = true ↔ b.ct ≠ .noChange := by
   by_cases hct : b.ct = .noChange
   · rw [hstep_noChange plus s b hct]; simp [hct, Emit.none]
-  · rw [hstep_change plus s b hct]; simp [hct, apply_status plus b _ hct]
+  · rw [hstep_change plus s b hct]; simp [hct, apply_status plus _ b _ hct]
 
 theorem hstep_err_status (plus : Bool) (s : H) (b : Batch) (h : (hstep plus s b).2.err = true) :
     b.ct ≠ .noChange ∧ (hstep plus s b).2.statusUpdated = true ∧ (hstep plus s b).1.lastErr = true := by
@@ -302,13 +330,13 @@ theorem hstep_err_status (plus : Bool) (s : H) (b : Batch) (h : (hstep plus s b)
 theorem hstep_err_iff (plus : Bool) (s : H) (b : Batch) :
     (hstep plus s b).2.err = true ↔
       (b.ct ≠ .noChange ∧
-        if plus = true ∧ b.ct = .endpointsOnly then b.apiOk = false
+        if apiOnly plus s.lastErr b = true then b.apiOk = false
         else (b.writeOk = false ∨ (reload b.oracle (s.version + 1)).res.isSome = true ∨
               (plus = true ∧ b.apiOk = false))) := by
   by_cases hct : b.ct = .noChange
   · rw [hstep_noChange plus s b hct]; simp [hct, Emit.none]
   · rw [hstep_change plus s b hct]
-    have := apply_err_iff plus b (s.version + 1) hct
+    have := apply_err_iff plus s.lastErr b (s.version + 1) hct
     simp only [ne_eq, hct, not_false_eq_true, true_and]
     exact this
 
@@ -326,7 +354,7 @@ theorem inv_step (plus : Bool) (s : H) (b : Batch) (hi : Inv s) : Inv (hstep plu
   · rw [hstep_noChange plus s b hct]
     constructor <;> state_cases0 s
   · rw [hstep_change plus s b hct]
-    generalize (apply plus b (s.version + 1)).err = e
+    generalize (apply plus s.lastErr b (s.version + 1)).err = e
     constructor <;> state_cases s e
 
 theorem inv_run (plus : Bool) : ∀ (bs : List Batch) (s : H), Inv s → Inv (hrun plus s bs).1
